@@ -111,10 +111,10 @@ func plans(id, tier string) (Plan, bool) {
 			{Pkg: pkgV2, Harness: "c09_frozen", Params: "mode=small", Shards: pick(4, 8)},
 			{Pkg: pkgV2, Harness: "c09_frozen", Params: "mode=corpus", Shards: pick(8, 16)},
 		}
-		for _, sc := range []int{0, 1, 2, 3, 6, 7} {
+		for _, sc := range []int{0, 1, 2, 3, 6, 7, 8, 9, 10} {
 			jobs = append(jobs, Job{Pkg: pkgV2, Harness: "c09_sched", Instr: "v2coarse", Params: fmt.Sprintf("scenario=%d;threads=2;policy=delay;budget=2", sc), Shards: pick(2, 2)})
 		}
-		for _, sc := range map[bool][]int{false: {0, 1, 6, 7}, true: {0, 1, 2, 3, 6, 7}}[th] {
+		for _, sc := range map[bool][]int{false: {0, 1, 6, 7, 8}, true: {0, 1, 2, 3, 6, 7, 8, 9, 10}}[th] {
 			// every yield site (no calibration filter), one delay
 			jobs = append(jobs, Job{Pkg: pkgV2, Harness: "c09_sched", Instr: "v2coarse", Params: fmt.Sprintf("scenario=%d;threads=2;policy=delay;budget=1;maxsite=100000", sc), Shards: 2})
 		}
